@@ -67,15 +67,15 @@ Proof. exact encipher4_spec. Qed.
 Print Assumptions C05_encipher4.
 
 (* premises are satisfiable *)
-Definition ex_pin : str := digit_chars [1; 2; 3; 4]%N.
-Definition ex_pan : str := digit_chars [5; 5; 5; 5; 5; 5; 5; 5; 5; 1; 2; 3; 4; 5; 6; 7]%N.
-Definition ex_tape : bytes := [1; 2; 3; 4; 5; 6; 7; 255]%N.
+Definition c05_pin : str := digit_chars [1; 2; 3; 4]%N.
+Definition c05_pan : str := digit_chars [5; 5; 5; 5; 5; 5; 5; 5; 5; 1; 2; 3; 4; 5; 6; 7]%N.
+Definition c05_tape : bytes := [1; 2; 3; 4; 5; 6; 7; 255]%N.
 
 Example C05_format0_instance :
-  bad_pin ex_pin = false /\ bad_pan13 ex_pan = false /\
-  xor_pos (spec_pin_block_0 ex_pin) (spec_pan_block ex_pan) =
+  bad_pin c05_pin = false /\ bad_pan13 c05_pan = false /\
+  xor_pos (spec_pin_block_0 c05_pin) (spec_pan_block c05_pan) =
     [0; 4; 1; 2; 6; 1; 10; 10; 10; 10; 14; 13; 12; 11; 10; 9]%N /\                   (* 041261AAAAEDCBA9 *)
-  spec_pin_block_2 ex_pin = [2; 4; 1; 2; 3; 4; 15; 15; 15; 15; 15; 15; 15; 15; 15; 15]%N.
+  spec_pin_block_2 c05_pin = [2; 4; 1; 2; 3; 4; 15; 15; 15; 15; 15; 15; 15; 15; 15; 15]%N.
 Proof. vm_compute. repeat split; reflexivity. Qed.
 
 Example C05_pan_field4_instance :
@@ -88,6 +88,6 @@ Proof. vm_compute. repeat split; reflexivity. Qed.
 
 Example C05_encipher4_instance :
   cipher_ok toy_aes /\ bs toy_aes = 16%nat /\ valid_key toy_aes (repeat 7%N 16) = true /\
-  is_ok (encode_pin_field_iso_4 ex_pin ex_tape) = true /\ is_ok (encode_pan_field_iso_4 ex_pan) = true /\
-  is_ok (encipher_pinblock_iso_4 toy_aes (repeat 7%N 16) ex_pin ex_pan ex_tape) = true.
+  is_ok (encode_pin_field_iso_4 c05_pin c05_tape) = true /\ is_ok (encode_pan_field_iso_4 c05_pan) = true /\
+  is_ok (encipher_pinblock_iso_4 toy_aes (repeat 7%N 16) c05_pin c05_pan c05_tape) = true.
 Proof. split; [exact toy_aes_ok|]. vm_compute. repeat split; reflexivity. Qed.
